@@ -226,10 +226,14 @@ class World:
         msg = recs[-1].getMessage()
         if msg == "probe":
             return 0
-        parts = msg.split("] [")
-        if len(parts) == 3 and msg.endswith("] probe"):
-            lab = parts[1]
-            return int(lab[1:]) if lab.startswith("s") and lab[1:].isdigit() else lab
+        # the scope tag: however the library renders it, the innermost scope's name appears before the message text;
+        # names used by the harness are s<n>, or the name of a wrapped function / generator
+        import re
+        head = msg[: -len("probe")] if msg.endswith("probe") else msg
+        m = re.findall(r"(?<![0-9A-Za-z_])(s\d+|gen|fn|afn|observer)(?![0-9A-Za-z_])", head)
+        if m:
+            lab = m[-1]
+            return int(lab[1:]) if lab[0] == "s" and lab[1:].isdigit() else lab
         return "odd:" + msg[:60]
 
     def group_id(self):
